@@ -454,6 +454,13 @@ func c17CorsTable(c *core.Ctx) {
 				varyOK = false
 			}
 		}
+		// the refusing edge too: since fix f59ecdc it sets no ACAO header, so it is anchored on the policy test itself —
+		// whatever isOriginAllowed answers, the response depends on the request's Origin
+		for _, cl := range u.CallsTo("types.(*cors).isOriginAllowed") {
+			if g.ReachesExitAvoiding(g.After(cl.Loc), vlocs) {
+				varyOK = false
+			}
+		}
 		c.Check(R, "types.(*cors).configureOrigin/Vary-table", u.Pos(), varyOK, "Vary: Origin whenever the value depends on the request or configuration string, never for *")
 	}
 	if ia := c.Fn(R, "types.(*cors).isOriginAllowed"); ia != nil {
